@@ -72,74 +72,98 @@ def msgView (m : Msg) : MsgView :=
 
 /-- `bus_connections_check_reply`: a pending entry (callee = replier, caller = receiver, serial)
     exists; it is consumed -/
-def checkReply (b : Bus) (replier receiver : ConnId) (serial : Nat) : Bus × Bool :=
+def checkReply (pend : List Pending) (replier receiver : ConnId) (serial : Nat) : List Pending × Bool :=
   let p : Pending := { caller := receiver, callee := replier, serial := serial }
-  if b.pending.contains p then ({ b with pending := b.pending.erase p }, true) else (b, false)
+  if pend.contains p then (pend.erase p, true) else (pend, false)
 
 /-- `bus_connections_expect_reply` -/
-def expectReply (b : Bus) (caller callee : ConnId) (call : Msg) : Bus × Option Err :=
-  if call.noReply then (b, none)
+def expectReply (maxReplies : Nat) (pend : List Pending) (caller callee : ConnId) (call : Msg) :
+    List Pending × Option Err :=
+  if call.noReply then (pend, none)
   else
     let p : Pending := { caller := caller, callee := callee, serial := call.serial }
-    if b.pending.contains p then (b, some .accessDenied)
-    else if (b.pending.filter (·.caller == caller)).length ≥ b.limits.maxReplies then (b, some .limitsExceeded)
-    else ({ b with pending := p :: b.pending }, none)
+    if pend.contains p then (pend, some .accessDenied)
+    else if (pend.filter (·.caller == caller)).length ≥ maxReplies then (pend, some .limitsExceeded)
+    else (p :: pend, none)
 
-/-- the gate every delivery passes; `sender = none` is the bus driver, `proposed = none` means
-    the message is addressed to the bus driver itself. Returns the updated pending-reply state. -/
-def checkPolicy (b : Bus) (sender addressed proposed : Option ConnId) (m : Msg) : Bus × Option Err :=
-  if !(m.mtype == 1 || m.mtype == 2 || m.mtype == 3 || m.mtype == 4) then (b, some .accessDenied)
+def knownType (m : Msg) : Bool := m.mtype == 1 || m.mtype == 2 || m.mtype == 3 || m.mtype == 4
+
+/-- the `requested_reply` flag, and the pending list once a matching entry has been consumed -/
+def requestedReply (b : Bus) (sender addressed proposed : Option ConnId) (m : Msg) : List Pending × Bool :=
+  match sender with
+  | some s =>
+    if b.isActive s && m.replySerial != 0 && proposed.isSome && addressed == proposed then
+      match addressed with
+      | some r => checkReply b.pending s r m.replySerial
+      | none => (b.pending, false)
+    else (b.pending, false)
+  | none => (b.pending, decide (addressed = proposed) && m.replySerial != 0)
+
+def senderInactive (b : Bus) : Option ConnId → Bool
+  | some s => !b.isActive s
+  | none => false
+
+/-- the policy a connection is judged by: none for the driver and for connections that have not
+    said Hello -/
+def rulesOf (b : Bus) : Option ConnId → Option (List PRule)
+  | some p => if b.isActive p then (b.conn? p).map (·.policy) else none
+  | none => none
+
+def isHello (m : Msg) : Bool :=
+  m.mtype == 1 && m.iface == some BUS_NAME && m.member == some (ascii' "Hello")
+
+/-- the decision proper (no state change): `none` = allowed -/
+def policyVerdict (b : Bus) (sender addressed proposed : Option ConnId) (m : Msg) (requested : Bool) : Option Err :=
+  if senderInactive b sender then
+    -- an inactive connection may only say Hello to the bus driver
+    if proposed.isNone && isHello m then none else some .accessDenied
   else
     let v := msgView m
-    -- requested_reply
-    let (b, requested, senderRules, senderInactive) :=
-      match sender with
-      | some s =>
-        if b.isActive s then
-          let rules := match b.conn? s with | some c => c.policy | none => []
-          if v.isReply && proposed.isSome && addressed == proposed then
-            match addressed with
-            | some r => let (b', ok) := checkReply b s r m.replySerial; (b', ok, some rules, false)
-            | none => (b, false, some rules, false)
-          else (b, false, some rules, false)
-        else (b, false, none, true)
-      | none => (b, decide (addressed = proposed) && v.isReply, none, false)
-    if senderInactive then
-      -- an inactive connection may only say Hello to the bus driver
-      if proposed.isNone && m.mtype == 1 && m.iface == some BUS_NAME && m.member == some (ascii' "Hello")
-      then (b, none) else (b, some .accessDenied)
+    let sendOK := match rulesOf b sender with
+      | some rules => canSend b.limits.maxFdsDefault rules v requested (b.peerInfo proposed)
+      | none => true
+    if !sendOK then some .accessDenied
     else
-      let recvRules : Option (List PRule) :=
-        match proposed with
-        | some p => if b.isActive p then (b.conn? p).map (·.policy) else none
-        | none => none
-      let sendOK := match senderRules with
-        | some rules => canSend b.limits.maxFdsDefault rules v requested (b.peerInfo proposed)
+      let eavesdropping := decide (addressed ≠ proposed) && v.dest.isSome
+      let recvOK := match rulesOf b proposed with
+        | some rules => canReceive b.limits.maxFdsDefault rules v requested eavesdropping (b.peerInfo sender)
         | none => true
-      if !sendOK then (b, some .accessDenied)
-      else
-        let eavesdropping := decide (addressed ≠ proposed) && v.dest.isSome
-        let recvOK := match recvRules with
-          | some rules => canReceive b.limits.maxFdsDefault rules v requested eavesdropping (b.peerInfo sender)
-          | none => true
-        if !recvOK then (b, some .accessDenied)
-        else
-          match sender, addressed with
-          | some s, some a =>
-            if m.mtype == 1 && addressed == proposed then expectReply b s a m else (b, none)
-          | _, _ => (b, none)
+      if !recvOK then some .accessDenied else none
+
+/-- `bus_context_check_security_policy`, the gate every delivery passes; `sender = none` is the bus
+    driver, `proposed = none` means the message is addressed to the bus driver itself. Returns the
+    pending-reply list afterwards (the only state it touches) and the verdict. -/
+def checkPolicy (b : Bus) (sender addressed proposed : Option ConnId) (m : Msg) : List Pending × Option Err :=
+  if !knownType m then (b.pending, some .accessDenied)
+  else
+    let (pend, requested) := requestedReply b sender addressed proposed m
+    match policyVerdict b sender addressed proposed m requested with
+    | some e => (pend, some e)
+    | none =>
+      match sender, addressed with
+      | some s, some a =>
+        if m.mtype == 1 && addressed == proposed then
+          expectReply b.limits.maxReplies pend s a m
+        else (pend, none)
+      | _, _ => (pend, none)
+
+def Tx.setPending (t : Tx) (p : List Pending) : Tx := { t with bus := { t.bus with pending := p } }
 
 /-! ### sending -/
 
+/-- what `bus_transaction_send_from_driver` makes of a message: sender, destination, NO_REPLY -/
+def stampDriver (b : Bus) (to : ConnId) (m : Msg) : Msg :=
+  let m := m.setSender BUS_NAME
+  let m := match b.nameOf to with | some n => m.setDest n | none => m
+  m.setNoReply
+
 /-- `bus_transaction_send_from_driver`: stamp, address, gate, queue -/
 def sendFromDriver (t : Tx) (to : ConnId) (m : Msg) : Tx :=
-  let m := m.setSender BUS_NAME
-  let m := match t.bus.nameOf to with | some n => m.setDest n | none => m
-  let m := m.setNoReply
-  let (b, err) := checkPolicy t.bus none (some to) (some to) m
+  let m := stampDriver t.bus to m
+  let (p, err) := checkPolicy t.bus none (some to) (some to) m
   match err with
-  | some _ => { t with bus := b }
-  | none => { t with bus := b }.emit (.deliver to m)
+  | some _ => t.setPending p
+  | none => (t.setPending p).emit (.deliver to m)
 
 def sendError (t : Tx) (to : ConnId) (inReplyTo : Msg) (e : Err) : Tx :=
   sendFromDriver t to (mkError inReplyTo e)
@@ -150,35 +174,36 @@ def recipients (b : Bus) (sender addressed : Option ConnId) (m : Msg) : List Con
   (b.conns.filter fun c => !c.monitor && some c.id != addressed && c.rules.any (fun r => ruleMatches r ctx)).map (·.id)
 
 /-- `send_one_message` for a match-rule recipient: silently skipped when refused -/
+def canFdOf (b : Bus) (c : ConnId) : Bool := match b.conn? c with | some x => x.canFd | none => false
+
 def sendOne (t : Tx) (sender addressed : Option ConnId) (to : ConnId) (m : Msg) : Tx :=
-  let (b, err) := checkPolicy t.bus sender addressed (some to) m
+  let (p, err) := checkPolicy t.bus sender addressed (some to) m
   match err with
-  | some _ => { t with bus := b }
+  | some _ => t.setPending p
   | none =>
-    let canFd := match b.conn? to with | some c => c.canFd | none => false
-    if m.nFds > 0 && !canFd then { t with bus := b }
-    else { t with bus := b }.emit (.deliver to m)
+    if m.nFds > 0 && !canFdOf t.bus to then t.setPending p
+    else (t.setPending p).emit (.deliver to m)
 
 /-- `bus_dispatch_matches`; an error means the addressed delivery was refused and nothing else
     was tried -/
-def dispatchMatches (t : Tx) (sender addressed : Option ConnId) (m : Msg) : Tx × Option Err :=
-  let (t, err) : Tx × Option Err :=
-    match addressed with
-    | some a =>
-      let (b, err) := checkPolicy t.bus sender addressed addressed m
-      let t := { t with bus := b }
-      match err with
-      | some e => (t, some e)
-      | none =>
-        let canFd := match b.conn? a with | some c => c.canFd | none => false
-        if m.nFds > 0 && !canFd then (t, some .notSupported)
-        else (t.emit (.deliver a m), none)
-    | none => (t, none)
+def sendAddressed (t : Tx) (sender : Option ConnId) (a : ConnId) (m : Msg) : Tx × Option Err :=
+  let (p, err) := checkPolicy t.bus sender (some a) (some a) m
   match err with
-  | some e => (t, some e)
+  | some e => (t.setPending p, some e)
   | none =>
-    let rs := recipients t.bus sender addressed m
-    (rs.foldl (fun t r => sendOne t sender addressed r m) t, none)
+    if m.nFds > 0 && !canFdOf t.bus a then (t.setPending p, some .notSupported)
+    else ((t.setPending p).emit (.deliver a m), none)
+
+def sendMatches (t : Tx) (sender addressed : Option ConnId) (m : Msg) : Tx :=
+  (recipients t.bus sender addressed m).foldl (fun t r => sendOne t sender addressed r m) t
+
+def dispatchMatches (t : Tx) (sender addressed : Option ConnId) (m : Msg) : Tx × Option Err :=
+  match addressed with
+  | some a =>
+    match sendAddressed t sender a m with
+    | (t, some e) => (t, some e)
+    | (t, none) => (sendMatches t sender addressed m, none)
+  | none => (sendMatches t sender addressed m, none)
 
 /-! ### driver signals -/
 
@@ -226,6 +251,7 @@ def applyQueue (t : Tx) (n : Bytes) (os' : List Owner) (sigs : List Sig) : Tx :=
   { t with bus := syncOwned (t.bus.setOwners n os') n os os' }
 
 def nOwned (b : Bus) (c : ConnId) : Nat := match b.conn? c with | some x => x.owned.length | none => 0
+def connPolicy (b : Bus) (c : ConnId) : List PRule := match b.conn? c with | some x => x.policy | none => []
 
 /-- `bus_registry_acquire_service` -/
 def acquire (t : Tx) (c : ConnId) (n : Bytes) (flags : Nat) : Tx × Except Err Nat :=
@@ -233,8 +259,7 @@ def acquire (t : Tx) (c : ConnId) (n : Bytes) (flags : Nat) : Tx × Except Err N
   else if n.head? == some 0x3a then (t, .error .invalidArgs)
   else if n == BUS_NAME then (t, .error .invalidArgs)
   else
-    let rules := match t.bus.conn? c with | some x => x.policy | none => []
-    if !canOwn rules n then (t, .error .accessDenied)
+    if !canOwn (connPolicy t.bus c) n then (t, .error .accessDenied)
     else if nOwned t.bus c ≥ t.bus.limits.maxNames then (t, .error .limitsExceeded)
     else
       let (os', code, sigs) := qAcquire (ownersOf t.bus n) c flags
@@ -261,27 +286,32 @@ def ensureService (t : Tx) (n : Bytes) (c : ConnId) (flags : Nat) : Tx :=
 
 /-! ### unique names -/
 
-def decAux : Nat → Nat → Bytes → Bytes
-  | 0, _, acc => acc
-  | f + 1, n, acc =>
-    let acc' := (UInt8.ofNat (48 + n % 10)) :: acc
-    if n / 10 = 0 then acc' else decAux f (n / 10) acc'
 /-- decimal rendering (`_dbus_string_append_int`) -/
-def dec (n : Nat) : Bytes := decAux (n + 1) n []
+def dec (n : Nat) : Bytes := (Nat.toDigits 10 n).map fun c => UInt8.ofNat c.toNat
 
 def uniqueName (major minor : Nat) : Bytes := 0x3a :: (dec major ++ 0x2e :: dec minor)
+
+/-- one turn of the counters: start at 1.0, then 1.1, 1.2, … (a minor number of 0 means "open the
+    next major number") -/
+def bump (b : Bus) : Bus × Bytes :=
+  let maj := if b.nextMinor = 0 then b.nextMajor + 1 else b.nextMajor
+  let mnr := if b.nextMinor = 0 then 0 else b.nextMinor
+  ({ b with nextMajor := maj, nextMinor := mnr + 1 }, uniqueName maj mnr)
 
 /-- `create_unique_client_name`: mint from the counters, skipping names already registered
     (fuel: at most one collision per registered name) -/
 def mintAux : Nat → Bus → Bus × Bytes
-  | 0, b => (b, uniqueName b.nextMajor b.nextMinor)
+  | 0, b => bump b
   | f + 1, b =>
-    let (maj, mnr) := if b.nextMinor = 0 then (b.nextMajor + 1, 0) else (b.nextMajor, b.nextMinor)
-    let nm := uniqueName maj mnr
-    let b := { b with nextMajor := maj, nextMinor := mnr + 1 }
-    if (b.service? nm).isNone then (b, nm) else mintAux f b
+    let r := bump b
+    if (r.1.service? r.2).isNone then r else mintAux f r.1
 
 def mint (b : Bus) : Bus × Bytes := mintAux (b.services.length + 1) b
+
+/-- `bus_connection_complete`: the connection gets its name and its policy -/
+def activate (b : Bus) (c : ConnId) (nm : Bytes) : Bus :=
+  { (b.updConn c fun x => { x with name := some nm, policy := b.policy.clientRules x.uid x.gids false })
+    with minted := nm :: b.minted }
 
 /-! ### driver methods -/
 
@@ -291,20 +321,22 @@ def reply (t : Tx) (c : ConnId) (call : Msg) (tys : List Ty) (body : List Val) :
 def nCompleted (b : Bus) : Nat := (b.conns.filter (·.name.isSome)).length
 def nCompletedFor (b : Bus) (uid : Nat) : Nat := (b.conns.filter fun x => x.name.isSome && x.uid == uid).length
 
+def uidOf (b : Bus) (c : ConnId) : Nat := match b.conn? c with | some x => x.uid | none => 0
+
+/-- the successful part of Hello: mint, activate, welcome reply, then the name's first owner
+    (NameOwnerChanged, NameAcquired) -/
+def helloOk (t : Tx) (c : ConnId) (m : Msg) : Tx :=
+  ensureService
+    (reply { t with bus := activate (mint t.bus).1 c (mint t.bus).2 } c (m.setSender (mint t.bus).2) [tStr]
+      [sStr (mint t.bus).2])
+    (mint t.bus).2 c 0
+
 /-- `bus_driver_handle_hello` -/
 def hello (t : Tx) (c : ConnId) (m : Msg) : Tx × Option Err :=
   if t.bus.isActive c then (t, some .failed)
-  else
-    let uid := match t.bus.conn? c with | some x => x.uid | none => 0
-    if nCompleted t.bus ≥ t.bus.limits.maxCompleted then (t, some .limitsExceeded)
-    else if nCompletedFor t.bus uid ≥ t.bus.limits.maxPerUser then (t, some .limitsExceeded)
-    else
-      let (b, nm) := mint t.bus
-      let b := b.updConn c fun x =>
-        { x with name := some nm, policy := b.policy.clientRules x.uid x.gids false }
-      let t := { t with bus := b }
-      let t := reply t c (m.setSender nm) [tStr] [sStr nm]
-      (ensureService t nm c 0, none)
+  else if nCompleted t.bus ≥ t.bus.limits.maxCompleted then (t, some .limitsExceeded)
+  else if nCompletedFor t.bus (uidOf t.bus c) ≥ t.bus.limits.maxPerUser then (t, some .limitsExceeded)
+  else (helloOk t c m, none)
 
 def arg0 (m : Msg) : Bytes := match m.body with | (.str _ s) :: _ => s | _ => []
 def arg1Nat (m : Msg) : Nat := match m.body with | _ :: (.fixed _ n) :: _ => n | _ => 0
@@ -361,6 +393,9 @@ def findHandler (tbl : List IfaceRow) (canonical : Bool) (iface : Option Bytes) 
   | some (i, r) => .handler i r
   | none => if cands.isEmpty then .noInterface else .noMethod
 
+def nRules (b : Bus) (c : ConnId) : Nat := match b.conn? c with | some x => x.rules.length | none => 0
+def rulesOfConn (b : Bus) (c : ConnId) : List MatchRule := match b.conn? c with | some x => x.rules | none => []
+
 def isRoot (b : Bus) (c : ConnId) : Bool := match b.conn? c with | some x => x.uid == 0 | none => false
 
 /-- `bus_matchmaker_remove_rule_by_value`: the most recently added equal rule -/
@@ -402,12 +437,11 @@ def runMethod (t : Tx) (c : ConnId) (m : Msg) (which : Method) : Tx × Option Er
     let n := arg0 m
     if n == BUS_NAME then (reply t c m [tU32] [.fixed .u32 0], none)      -- the daemon's own uid (root here)
     else match t.bus.primary? n with
-      | some o => (reply t c m [tU32] [.fixed .u32 (match t.bus.conn? o with | some x => x.uid | none => 0)], none)
+      | some o => (reply t c m [tU32] [.fixed .u32 (uidOf t.bus o)], none)
       | none => (t, some .nameHasNoOwner)
   | .ping => (reply t c m [] [], none)
   | .addMatch =>
-    let nRules := match t.bus.conn? c with | some x => x.rules.length | none => 0
-    if nRules ≥ t.bus.limits.maxRules then (t, some .limitsExceeded)
+    if nRules t.bus c ≥ t.bus.limits.maxRules then (t, some .limitsExceeded)
     else
       match parseRule (arg0 m) with
       | .ok r =>
@@ -421,11 +455,9 @@ def runMethod (t : Tx) (c : ConnId) (m : Msg) (which : Method) : Tx × Option Er
     match parseRule (arg0 m) with
     | .ok r =>
       -- the acknowledgement is queued before the rule is looked up
-      let t := reply t c m [] []
-      let rs := match t.bus.conn? c with | some x => x.rules | none => []
-      match removeRule rs r with
-      | some rs' => ({ t with bus := t.bus.updConn c fun x => { x with rules := rs' } }, none)
-      | none => (t, some .matchRuleNotFound)
+      match removeRule (rulesOfConn t.bus c) r with
+      | some rs' => ({ reply t c m [] [] with bus := (reply t c m [] []).bus.updConn c fun x => { x with rules := rs' } }, none)
+      | none => (reply t c m [] [], some .matchRuleNotFound)
     | .tooLong => (t, some .limitsExceeded)
     | .invalid => (t, some .matchRuleInvalid)
   | .becomeMonitor => (t, some .failed)    -- replaced in Bus.Monitor
@@ -450,39 +482,55 @@ def driverHandle (tbl : List IfaceRow) (t : Tx) (c : ConnId) (m : Msg) : Tx × O
 
 /-! ### disconnect -/
 
+def Tx.mapBus (t : Tx) (f : Bus → Bus) : Tx := { t with bus := f t.bus }
+
+def involves (c : ConnId) (p : Pending) : Bool := p.caller == c || p.callee == c
+
+/-- a stand-in for the call a pending entry remembers (only its serial matters to the error reply) -/
+def fakeCall (serial : Nat) : Msg :=
+  { endian := .little, mtype := 1, flags := 0, version := 1, serial := serial, fields := [], bodyTypes := [], body := [] }
+
+def noReplyTo (c : ConnId) (t : Tx) (p : Pending) : Tx :=
+  if p.callee == c && p.caller != c then sendError t p.caller (fakeCall p.serial) .noReply else t
+
 /-- `bus_connection_drop_pending_replies`: callers waiting on the vanished callee get NoReply;
     entries where it was the caller are forgotten -/
 def dropPending (t : Tx) (c : ConnId) : Tx :=
-  let (mine, others) := t.bus.pending.partition fun p => p.caller == c || p.callee == c
-  let t := { t with bus := { t.bus with pending := others } }
-  mine.foldl (fun t p =>
-    if p.callee == c && p.caller != c then
-      let fake : Msg := { endian := .little, mtype := 1, flags := 0, version := 1, serial := p.serial,
-                          fields := [], bodyTypes := [], body := [] }
-      sendError t p.caller fake .noReply
-    else t) t
+  (t.bus.pending.filter (involves c)).foldl (noReplyTo c)
+    (t.setPending (t.bus.pending.filter fun p => !involves c p))
+
+/-- `bus_matchmaker_disconnected` runs only when the vanishing connection has rules of its own;
+    it also drops other connections' rules that name the vanishing unique name as sender or
+    destination (the name is never reused, so they could never match again) -/
+def gcRules (b : Bus) (x : Conn) : Bus :=
+  if x.rules.isEmpty then b else
+    match x.name with
+    | none => b
+    | some nm => { b with conns := b.conns.map fun y =>
+        if y.id == x.id then y else { y with rules := y.rules.filter fun r => !(r.sender == some nm || r.dest == some nm) } }
+
+def clearRules (b : Bus) (c : ConnId) : Bus := b.updConn c fun x => { x with rules := [], monitorRules := [] }
+
+def releaseAll (t : Tx) (c : ConnId) (names : List Bytes) : Tx := names.foldl (fun t n => removeOwner t n c) t
+
+def removeConn (c : ConnId) (b : Bus) : Bus := { b with conns := b.conns.filter (·.id != c) }
+
+def notTo (c : ConnId) : Out → Bool
+  | .deliver to _ => to != c
+  | .opaque to _ => to != c
+  | .close _ => true
 
 /-- `bus_connection_disconnected`: rules go first, then every owned name from the most recently
     joined back to the unique name (one transaction each), then the pending replies -/
+def disconnectTx (b : Bus) (c : ConnId) (x : Conn) : Tx :=
+  dropPending ((releaseAll { bus := clearRules (gcRules b x) c } c x.owned.reverse).mapBus (removeConn c)) c
+
 def disconnect (b : Bus) (c : ConnId) : Bus × List Out :=
   match b.conn? c with
   | none => (b, [])
   | some x =>
-    -- `bus_matchmaker_disconnected` runs only when the vanishing connection has rules of its own;
-    -- it also drops other connections' rules that name the vanishing unique name as sender or
-    -- destination (the name is never reused, so they could never match again)
-    let b := if x.rules.isEmpty then b else
-      match x.name with
-      | none => b
-      | some nm => { b with conns := b.conns.map fun y =>
-          if y.id == c then y else { y with rules := y.rules.filter fun r => !(r.sender == some nm || r.dest == some nm) } }
-    let b := b.updConn c fun x => { x with rules := [], monitorRules := [] }
-    let t : Tx := { bus := b }
-    let t := x.owned.reverse.foldl (fun t n => removeOwner t n c) t
-    let t := { t with bus := { t.bus with conns := t.bus.conns.filter (·.id != c) } }
-    let t := dropPending t c
     -- the vanished connection itself is no longer connected: nothing is queued for it
-    (t.bus, t.out.filter fun o => match o with | .deliver to _ => to != c | .opaque to _ => to != c | .close _ => true)
+    ((disconnectTx b c x).bus, (disconnectTx b c x).out.filter (notTo c))
 
 /-! ### `bus_dispatch` -/
 
@@ -509,65 +557,68 @@ where
   mkErr' (m : Msg) (e : Err) : Msg :=
     mkMsg 3 [u32Field FIELD_REPLY_SERIAL m.serial, strField FIELD_ERROR_NAME e.name] [tStr] [sStr []]
 
+/-- the header as the bus takes it in: unknown fields and CONTAINER_INSTANCE dropped -/
+def strip (m0 : Msg) : Msg :=
+  ({ m0 with fields := removeUnknownList m0.fields } : Msg).delField FIELD_CONTAINER_INSTANCE
+
+def senderNameOf (b : Bus) (c : ConnId) : Bytes := match b.nameOf c with | some n => n | none => NOT_ACTIVE
+
+/-- a message addressed to org.freedesktop.DBus -/
+def toDriver (tbl : List IfaceRow) (t : Tx) (c : ConnId) (m : Msg) : Tx × Option Err :=
+  let (p, e) := checkPolicy t.bus (some c) none none m
+  let t := t.setPending p
+  match e with
+  | some e => (t, some e)
+  | none =>
+    match driverHandle tbl t c m with
+    | (t, some e) => (t, some e)
+    | (t, none) =>
+      -- messages to the driver are also shown to eavesdropping match rules (Hello has re-stamped
+      -- the sender with the freshly minted name by now)
+      dispatchMatches t (some c) none (m.setSender (senderNameOf t.bus c))
+
+/-- a message from an active connection to a peer, or a broadcast -/
+def route (t : Tx) (c : ConnId) (m : Msg) : Tx × Option Err :=
+  match m.dest with
+  | some d =>
+    match t.bus.primary? d with
+    | none => (t, some (if m.noAutoStart then .nameHasNoOwner else .serviceUnknown))
+    | some a => dispatchMatches t (some c) (some a) m
+  | none => dispatchMatches t (some c) none m
+
+/-- the end of `bus_dispatch`: an error becomes an error reply to the sender -/
+def finish (r : Tx × Option Err) (c : ConnId) (m : Msg) : Bus × List Out :=
+  match r with
+  | (t, some e) => let t := sendError t c m e; (t.bus, t.out)
+  | (t, none) => (t.bus, t.out)
+
+def dropConn (b : Bus) (c : ConnId) : Bus × List Out :=
+  let (b, out) := disconnect b c
+  (b, out ++ [.close c])
+
 def dispatch (tbl : List IfaceRow) (b : Bus) (c : ConnId) (m0 : Msg) : Bus × List Out :=
   match b.conn? c with
   | none => (b, [])
   | some x =>
-    if x.monitor then
-      let (b, out) := disconnect b c
-      (b, out ++ [.close c])
+    if x.monitor then dropConn b c
     else
-      let m := { m0 with fields := removeUnknownList m0.fields }
-      let m := m.delField FIELD_CONTAINER_INSTANCE
+      let m := strip m0
       if m.dest.isNone && m.mtype != 4 then
         -- left to the connection layer; its reply is made from the message as received (sender
         -- not yet stamped)
         (b, (builtinReply m).map (Out.deliver c))
       else
-        let m := m.setSender (match x.name with | some n => n | none => NOT_ACTIVE)
-        let t : Tx := { bus := b }
-        let (t, err, closeIt) : Tx × Option Err × Bool :=
-          if m.dest == some BUS_NAME then
-            let (b', e) := checkPolicy t.bus (some c) none none m
-            let t := { t with bus := b' }
-            match e with
-            | some e => (t, some e, false)
-            | none =>
-              let (t, e) := driverHandle tbl t c m
-              match e with
-              | some e => (t, some e, false)
-              | none =>
-                -- messages to the driver are also shown to eavesdropping match rules (Hello has
-                -- re-stamped the sender with the freshly minted name by now)
-                let m := m.setSender (match t.bus.nameOf c with | some n => n | none => NOT_ACTIVE)
-                let (t, e) := dispatchMatches t (some c) none m; (t, e, false)
-          else if x.name.isNone then (t, none, true)
-          else
-            match m.dest with
-            | some d =>
-              match t.bus.primary? d with
-              | none => (t, some (if m.noAutoStart then .nameHasNoOwner else .serviceUnknown), false)
-              | some a => let (t, e) := dispatchMatches t (some c) (some a) m; (t, e, false)
-            | none => let (t, e) := dispatchMatches t (some c) none m; (t, e, false)
-        if closeIt then
-          let (b, out) := disconnect t.bus c
-          (b, t.out ++ out ++ [.close c])
-        else
-          let t := match err with
-            | some e => sendError t c m e
-            | none => t
-          (t.bus, t.out)
+        let m := m.setSender (senderNameOf b c)
+        if m.dest == some BUS_NAME then finish (toDriver tbl { bus := b } c m) c m
+        else if x.name.isNone then dropConn b c
+        else finish (route { bus := b } c m) c m
 
 def step (tbl : List IfaceRow) (b : Bus) : Ev → Bus × List Out
   | .connect c uid gids canFd =>
     if (b.conn? c).isSome then (b, [])
     else ({ b with conns := b.conns ++ [{ id := c, uid := uid, gids := gids, canFd := canFd }] }, [])
   | .msg c m => dispatch tbl b c m
-  | .invalid c =>
-    if (b.conn? c).isNone then (b, [])
-    else
-      let (b, out) := disconnect b c
-      (b, out ++ [.close c])
+  | .invalid c => if (b.conn? c).isNone then (b, []) else dropConn b c
   | .close c => disconnect b c
 
 def run (tbl : List IfaceRow) (b : Bus) (evs : List Ev) : Bus × List (List Out) :=
